@@ -67,8 +67,9 @@ ModesText(i) ==
     ELSE (IF \E c \in S : fault[c] = ModeNames[i] THEN "+" \o ModeNames[i] ELSE "") \o ModesText(i + 1)
 Faults == IF \A c \in S : fault[c] = "none" THEN "none" ELSE ModesText(1)
 
+LateTag(c) == IF entries[c].late THEN ":registered-after-first-load" ELSE ""
 Feat(c) == "kind=" \o entries[c].kind \o ":" \o (IF entries[c].multi THEN "multi" ELSE "single") \o
-           ":saveas=" \o entries[c].saveas \o (IF entries[c].filtered THEN ":filtered-spec" ELSE "")
+           ":saveas=" \o entries[c].saveas \o (IF entries[c].filtered THEN ":filtered-spec" ELSE "") \o LateTag(c)
 
 Perms(n) == {f \in [1..n -> 1..n] : \A i, j \in 1..n : i # j => f[i] # f[j]}
 
@@ -91,7 +92,7 @@ DiagHydrated ==
     ELSE IF \E c \in S : MustLoadFor(c, meta, fault) /\ ~Ld[c].present THEN
         (LET c == CHOOSE c \in S : MustLoadFor(c, meta, fault) /\ ~Ld[c].present IN
          IF Faults = "none" THEN "RoundTrip:persisted-entry-not-loaded:" \o Feat(c)
-         ELSE "FaultIsolation:intact-entry-not-loaded:kind=" \o entries[c].kind \o ":faults=" \o Faults)
+         ELSE "FaultIsolation:intact-entry-not-loaded:kind=" \o entries[c].kind \o LateTag(c) \o ":faults=" \o Faults)
     ELSE IF ~FaultIsolationFor(S, meta, fault, Ld) THEN "FaultIsolation:phantom-entry-loaded"
     ELSE LET c == CHOOSE c \in S : Ld[c].present /\ fault[c] = "none" /\ ~EntryOK(entries[c], Ld[c], meta[c].res) IN
          "RoundTrip:" \o DiagEntry(c) \o ":" \o Feat(c)
